@@ -142,6 +142,14 @@ pub fn gen_request(rng: &mut Rng, o: &GenOpts) -> ReqModel {
         }
     }
     for _ in 0..nfields {
+        // one field in six repeats an earlier field exactly (same name up to case, byte-identical value): two
+        // such fields are two fields, in the parse result and after a relay (seeded C02-L)
+        if !fields.is_empty() && rng.chance(1, 6) {
+            let (n0, _, v0) = fields[rng.below(fields.len() as u64) as usize].clone();
+            let name = if rng.chance(1, 2) { n0 } else { random_case(rng, &n0) };
+            fields.push((name, rng.urange(0, 3), v0));
+            continue;
+        }
         let base = rng.pick(&pool).clone();
         fields.push((random_case(rng, &base), rng.urange(0, 3), gen_value(rng)));
     }
